@@ -21,6 +21,40 @@ EXPLANATION = (
 TRUSTED = ["rustc MIR construction", "over-approximated dependence (absence is definite)", "sprs TriMat::from_triplets/to_csr semantics"]
 
 
+
+DEGREE_SOURCES = {
+    "degree::Graph::get_node_degree": "get_edges_for_node",
+    "degree::Graph::get_node_weighted_degree": "get_edges_for_node",
+    "degree::Graph::get_node_in_degree": "get_in_edges_for_node",
+    "degree::Graph::get_node_weighted_in_degree": "get_in_edges_for_node",
+    "degree::Graph::get_node_out_degree": "get_out_edges_for_node",
+    "degree::Graph::get_node_weighted_out_degree": "get_out_edges_for_node",
+}
+
+
+def degrees_from_edge_lists(ctx, prog, flows, rid, only, consequence):
+    """shared by C09 and C12 (modularity's degree sums): each per-node degree function derives its value from the
+    per-node list of STORED edges, never from the adjacency cache (one entry and one policy weight per neighbour)"""
+    ctx.rule(rid, "per-node degrees are computed from the stored edges (per-node edge lists), never from the adjacency cache")
+    for sfx, src in DEGREE_SOURCES.items():
+        if only is not None and sfx.split("::")[-1] not in only:
+            continue
+        b = prog.one(sfx)
+        sl = flows.slice(b.path, [L(0)], up=False, down="clos", data_only=True)
+        cal = set()
+        fields = set()
+        for (bp, nd) in sl:
+            if nd[0] == "CALL":
+                t = prog.bodies[bp].blocks[nd[1]].term
+                if t.callee:
+                    cal.add(t.callee.short.split("::")[-1])
+            if nd[0] == "SRC":
+                f_ = field_of(("P", nd[1], nd[2]))
+                if f_:
+                    fields.add(f_)
+        cache = (cal & {"get_successor_nodes_by_index", "get_predecessor_nodes_by_index"}) | (fields & {"successors_vec", "predecessors_vec"})
+        ctx.require(src in cal and not cache, rid, b.short, "%s is computed from %s" % (sfx.split("::")[-1], src), "%s is computed from %s%s: the cache has one entry and one policy weight per neighbour, so %s" % (sfx.split("::")[-1], sorted(cal & {"get_edges_for_node", "get_in_edges_for_node", "get_out_edges_for_node"}) or "no edge list", (" and the adjacency cache " + str(sorted(cache))) if cache else "", consequence), loc_str(b.span))
+
 def run(ctx):
     prog = ctx.prog
     flows = Flows(prog)
@@ -40,6 +74,22 @@ def run(ctx):
     from graphrules import node_append_behind_fresh_absence_test
 
     node_append_behind_fresh_absence_test(ctx, prog, flows, Effects(prog, flows), "R-C09-7", "the same name is stored twice, so number_of_nodes, the per-node degree maps, degree_centrality's n-1, the density and the matrix dimension count a node that has no edges and no name of its own")
+
+    # ------------------------------------------------------------------ R-C09-8
+    # the edge count behind density / size / number_of_edges is taken from the edge store; the adjacency sets hold one
+    # entry per NEIGHBOUR (a self-loop once, parallel edges once), not one per edge end
+    ctx.rule("R-C09-8", "density, size and number_of_edges count the edge store, never the adjacency sets")
+    from graphrules import field_of as _field_of
+
+    n8 = 0
+    for sfx_ in ("density::Graph::get_density", "query::Graph::size", "query::Graph::number_of_edges"):
+        b_ = prog.one(sfx_)
+        sl_ = flows.slice(b_.path, [("L", 0)], up=False, down=True, data_only=True)
+        fs_ = {_field_of(("P", nd_[1], nd_[2])) for (bp_, nd_) in sl_ if nd_[0] == "SRC"}
+        adj_ = sorted(x for x in fs_ if x in ("successors", "predecessors", "successors_map", "predecessors_map", "successors_vec", "predecessors_vec"))
+        n8 += 1
+        ctx.require(("edges" in fs_ or "edges_map" in fs_) and not adj_, "R-C09-8", "edge-count|" + sfx_.split("::")[-1], "%s reads the edge store" % sfx_.split("::")[-1],
+                    "%s derives its value from %s (reads %s): an undirected self-loop appears once in its node's adjacency set and parallel edges once per neighbour, so the value disagrees with number_of_edges / the handshake identities" % (sfx_.split("::")[-1], adj_ or "no edge store", sorted(x for x in fs_ if x)), loc_str(b_.span))
 
     # ------------------------------------------------------------------ R-C09-1
     ctx.rule("R-C09-1", "no edge count is taken from the number of keys of the pair-keyed edge stores on a multi-edge path")
@@ -121,31 +171,7 @@ def run(ctx):
     ctx.require(ok, "R-C09-3", "guarded-division", "the 1/(n-1) scale is computed only after the n <= 1 test", "the 1/(n-1) scale is not guarded by a test of n", loc_str(dc.span))
 
     # ------------------------------------------------------------------ R-C09-5
-    ctx.rule("R-C09-5", "per-node degrees are computed from the stored edges (per-node edge lists), never from the adjacency cache")
-    want = {
-        "degree::Graph::get_node_degree": "get_edges_for_node",
-        "degree::Graph::get_node_weighted_degree": "get_edges_for_node",
-        "degree::Graph::get_node_in_degree": "get_in_edges_for_node",
-        "degree::Graph::get_node_weighted_in_degree": "get_in_edges_for_node",
-        "degree::Graph::get_node_out_degree": "get_out_edges_for_node",
-        "degree::Graph::get_node_weighted_out_degree": "get_out_edges_for_node",
-    }
-    for sfx, src in want.items():
-        b = prog.one(sfx)
-        sl = flows.slice(b.path, [L(0)], up=False, down="clos", data_only=True)
-        cal = set()
-        fields = set()
-        for (bp, nd) in sl:
-            if nd[0] == "CALL":
-                t = prog.bodies[bp].blocks[nd[1]].term
-                if t.callee:
-                    cal.add(t.callee.short.split("::")[-1])
-            if nd[0] == "SRC":
-                f_ = field_of(("P", nd[1], nd[2]))
-                if f_:
-                    fields.add(f_)
-        cache = (cal & {"get_successor_nodes_by_index", "get_predecessor_nodes_by_index"}) | (fields & {"successors_vec", "predecessors_vec"})
-        ctx.require(src in cal and not cache, "R-C09-5", b.short, "%s is computed from %s" % (sfx.split("::")[-1], src), "%s is computed from %s%s: the cache has one entry and one policy weight per neighbour, so parallel edges are not counted/summed individually" % (sfx.split("::")[-1], sorted(cal & {"get_edges_for_node", "get_in_edges_for_node", "get_out_edges_for_node"}) or "no edge list", (" and the adjacency cache " + str(sorted(cache))) if cache else ""), loc_str(b.span))
+    degrees_from_edge_lists(ctx, prog, flows, "R-C09-5", None, "parallel edges are not counted/summed individually")
 
     # ------------------------------------------------------------------ R-C09-4
     ctx.rule("R-C09-4", "the self-loop correction of the (weighted) degree depends on specs.directed within the function")
